@@ -63,13 +63,19 @@ SCENARIOS = ["NO_INSTANCES", "EMPTY_PRED", "EMPTY_REF", "NORMAL"]
 
 def handler(cfg):
     """cfg: None (library default) or {'std': name, 'metrics': {M: [no_inst, empty_pred,
-    empty_ref, normal]}}"""
+    empty_ref, normal]}, 'via_default': {M: [default, [explicit?]*4]}}"""
     from panoptica.utils.edge_case_handling import EdgeCaseHandler, MetricZeroTPEdgeCaseHandling
 
     if cfg is None:
         return None
     d = {}
     for m, vals in cfg["metrics"].items():
+        if m in cfg.get("via_default", {}):
+            # default_result plus explicit values for some scenarios only
+            default, explicit = cfg["via_default"][m]
+            kw = {k: edge_result(v) for k, v, e in zip(("no_instances_result", "empty_prediction_result", "empty_reference_result", "normal"), vals, explicit) if e}
+            d[metric(m)] = MetricZeroTPEdgeCaseHandling(default_result=edge_result(default), **kw)
+            continue
         d[metric(m)] = MetricZeroTPEdgeCaseHandling(
             no_instances_result=edge_result(vals[0]),
             empty_prediction_result=edge_result(vals[1]),
